@@ -35,7 +35,7 @@ ASSUMES = P.ASSUMES_PIPELINE + ["alpha is a finite double with 0 < alpha < 1"]
 OUTSIDE = ["n above the enumerated bound (part A)", "alphas other than {0.5, 0.7} and more than 9 units in the end-to-end gate (part B)",
            "the bootstrap estimator's run beyond its gate (its numeric core is stubbed elsewhere)"]
 BOUNDS = {"quick": "part A: every double alpha in (0,1) x n in 1..16,20,24,32,40 (NP), n in 7..200 (GA, concrete); part B: NP alphas {0.5},{0.7},"
-                   "{0.5,0.7} with 2..8 modelled reporting units, GA with 5..8, BS with 9..11; duplicate-id rejection",
+                   "{0.5,0.7} with 2..8 modelled reporting units, GA with 5..8, BS with 9..11; duplicate-id rejection (a feed row twice; the same id reporting under two postal codes of a two-state election)",
           "thorough": "part A: n in 1..100 plus ladder 120..5000"}
 OPTS = {"quick": dict(case_timeout_s=900, solver_timeout_ms=600000), "thorough": dict(case_timeout_s=3400, solver_timeout_ms=1800000)}
 
@@ -61,6 +61,9 @@ def cases(tier):
         out.append(dict(name="gate_bs_n%d" % n, kind="gate_bs", pi="bootstrap", alphas=[0.9], n=n, need=10, weight=n))
     out.append(dict(name="gate_free_np", kind="gate_free", pi="nonparametric", alphas=[0.5], weight=30))
     out.append(dict(name="duplicate_ids", kind="dup", pi="nonparametric", alphas=[0.5], weight=5))
+    # the same unit id reporting under two postal codes (two-state election), with the reporting count above the minimum
+    for pi, al in (("nonparametric", [0.5]), ("gaussian", [0.7])):
+        out.append(dict(name="duplicate_ids_across_states_%s" % pi[:2], kind="dup", variant="cross_state", pi=pi, alphas=al, weight=5))
     return out
 
 
@@ -255,13 +258,24 @@ def run_gate_free(ctx, case):
 
 
 def run_dup(ctx, case):
-    units = P.standard_units(4, 1)
-    c = dict(case, units=units, estimands=["turnout"])
-    sc = P.build(ctx, c)
-    pre, cur = sc.frames()
     import pandas as pd
 
-    cur2 = pd.concat([cur, cur.iloc[[0]]], ignore_index=True)  # unit r0 appears twice in the feed
+    cross = case.get("variant") == "cross_state"
+    units = P.standard_units(8 if cross else 4, 1)
+    if cross:
+        # r0 exists in state AA and in state BB (both in the prepared data and in the feed, both reporting)
+        units = units + [P.U("r0", "rep", state="BB", county="c1", base=units[1]["base"]),
+                         P.U("q1", "rep", state="BB", county="c1", base=units[2]["base"])]
+    c = dict(case, units=units, estimands=["turnout"], cut_calibration=True)
+    sc = P.build(ctx, c)
+    pre, cur = sc.frames()
+    if cross:
+        both = cur[cur["geographic_unit_fips"] == "r0"]
+        if sorted(both["postal_code"]) != ["AA", "BB"]:
+            return [("scenario has unit id r0 under both postal codes", False)], {}
+        cur2 = cur
+    else:
+        cur2 = pd.concat([cur, cur.iloc[[0]]], ignore_index=True)  # unit r0 appears twice in the feed
     from elexmodel.client import ModelClientException, ModelNotEnoughSubunitsException
 
     try:
